@@ -63,6 +63,47 @@ def make_item(seed, k, variant=None):
     return {"k": k, "opt": opt, "cfg": cfg, "cfg0": cfg0, "final": final, "earlier": earlier, "stopkind": stopkind, "same_task": same_task}
 
 
+def amplify(item, cls, Cfg, rid):
+    """after a stale read without visible effect: the same history followed by other judged calls (more cycles, no early stop,
+    other tasks and directions); -> description of the first used-vs-fresh difference, or None"""
+    rng = random.Random(f"c08amp/{item['k']}")
+    kinds = ["continuous", "continuous", "multiobjective", "mixed", "discrete", "binary"]
+    cfg_l = dict(item["cfg"], max_cycles=max(12, int(item["cfg"].get("max_cycles") or 0)), fitness_error=None, early_stopping=None)
+    widths = [1e-7, 1e-6, 1e-5, 1e-3, 1.0, 1e3, 1e6, 1e-6, 1e-7, 1e-4]
+    for j in range(24):
+        if j < 2:
+            final = json.loads(json.dumps(item["final"]))
+        elif j % 2 == 0:
+            # left-over thresholds and step sizes are scale-sensitive: continuous tasks on boxes from 1e-7 to 1e6 wide
+            w = widths[(j // 2) % len(widths)]
+            c0 = rng.choice([0.0, -w / 2, 5.0])
+            n_ = rng.choice([2, 3])
+            final = {"vars": [["cm", [c0] * n_, [c0 + w] * n_]], "obj": [{"fam": rng.choice(["sphere", "abs", "plateau"]), "p": {"shift": c0 + w / 3}}],
+                     "weights": None, "minmax": rng.choice(["min", "max"])}
+        else:
+            final = universe.make_spec(rng, kind=rng.choice(kinds), minmax=rng.choice(["min", "max"]))
+        final["seed"] = rng.randint(0, 2 ** 32 - 1)
+        final.pop("_raise_after", None)
+        cfg_j = cfg_l if j % 2 == 0 else item["cfg"]
+        try:
+            used = cls(Cfg(**(item.get("cfg0") or cfg_j)))
+            for q, e in enumerate(item["earlier"]):
+                optimize_plain(used, build(e, rid + f"-amp{j}e{q}"), mode="serial", workers=2)
+            if item.get("cfg0"):
+                used.set_config_parameters(json.loads(json.dumps(cfg_j)))
+            fresh = cls(Cfg(**cfg_j))
+            st_u, res_u = optimize_plain(used, build(final, rid + f"-amp{j}u"), mode="serial", workers=2)
+            st_f, res_f = optimize_plain(fresh, build(final, rid + f"-amp{j}f"), mode="serial", workers=2)
+        except Exception:
+            continue
+        if "timeout" in (st_u, st_f):
+            continue
+        dd = outcome_difference(outcome_canon(st_u, res_u), outcome_canon(st_f, res_f))
+        if dd:
+            return f"judged call on {final['vars']!r} ({final.get('minmax')}, seed {final['seed']}, max_cycles {cfg_j['max_cycles']}): {dd}"
+    return None
+
+
 def work(item, opts):
     hooks.install()
     cls = env.optimizer_classes()[item["opt"]]
@@ -113,12 +154,23 @@ def work(item, opts):
         if d:
             out["viol"].append({"key": {"optimizer": item["opt"], "kind": "result-depends-on-history"},
                                 "detail": f"after {len(item['earlier'])} earlier call(s) [{','.join(out['earlier_status'])}]: used vs fresh instance: {d}"})
+        # oracle 2 is a GUIDE, not a verdict: reading a left-over value before overwriting it is harmless when it only decides
+        # whether to reset (`if self._errors: self._errors = []`).  A stale read is reported only together with a differential
+        # witness: either this very history already gave another result than a fresh instance, or one of up to 24 further
+        # judged calls after the same history (other tasks, longer budgets, no early stop) does.
+        wit = d
+        if mon.stale_reads and not wit:
+            wit = amplify(item, cls, Cfg, rid)
+            out["amplified"] = 1
         for field, n in sorted(mon.stale_reads.items()):
-            short = field.split("__")[-1] if "__" in field else field
+            if not wit:
+                continue
             out["viol"].append({"key": {"optimizer": item["opt"], "kind": "stale-state-read", "field": field},
                                 "detail": f"field {field} still holds the previous run's value ({dumps(a.get(field))[:80]} vs fresh "
-                                          f"{dumps(b.get(field))[:80]}) and is read {n}x before being re-initialised"})
+                                          f"{dumps(b.get(field))[:80]}) and is read {n}x before being re-initialised; "
+                                          f"observable effect: {str(wit)[:200]}"})
         out["stale_fields"] = sorted(mon.stale_reads)
+        out["stale_unconfirmed"] = sorted(mon.stale_reads) if (mon.stale_reads and not wit) else []
         out["written"] = len(mon.written)
     finally:
         for r in list(tasks._RUNS):
@@ -140,6 +192,7 @@ def check(prop, tier, seed):
     stopped = {"max_cycles": 0, "criterion": 0}
     hist = {1: 0, 2: 0}
     aborted = 0
+    unconfirmed = amplified = 0
     for it, r in zip(items, res):
         rep.evaluations += 1
         if isinstance(r, Lost) or r.get("skip"):
@@ -148,6 +201,8 @@ def check(prop, tier, seed):
         judged += 1
         opts_seen.add(r["opt"])
         armed_total += len(r.get("armed", []))
+        unconfirmed += len(r.get("stale_unconfirmed", []))
+        amplified += r.get("amplified", 0)
         for s in r["stopped_by"]:
             stopped[s] += 1
         hist[len(it["earlier"])] += 1
@@ -162,10 +217,13 @@ def check(prop, tier, seed):
     rep.extra.update({"histories_judged": judged, "optimizers_observed": len(opts_seen), "armed_fields_total": armed_total,
                       "earlier_runs_stopped_by": stopped, "histories_by_length": hist,
                       "earlier_runs_aborted_mid_run_by_a_raising_objective": aborted,
+                      "histories_with_a_stale_read_explored_further": amplified,
+                      "stale_reads_without_any_observable_effect_not_reported": unconfirmed,
                       "histories_whose_judged_call_reuses_the_task_object_of_the_earlier_call": sum(1 for it in items if it.get("same_task"))})
     rep.rule = ("history = 1 or 2 earlier optimize() calls (same or different task, ended by max_cycles / fitness_error / "
                 "early stopping) on one instance, then the judged call; oracle 1: canonical result == fresh instance's; "
-                "oracle 2: stale read of an armed field; non-trivial = earlier and final runs completed with >= 1 cycle")
+                "oracle 2: stale read of an armed field, reported only with a used-vs-fresh difference (this history or up to 10 "
+                "further judged calls after it); non-trivial = earlier and final runs completed with >= 1 cycle")
     rep.require("optimizers_observed", len(opts_seen), 84)
     rep.require("histories_judged", judged, int(0.9 * len(items)))
     rep.require("armed_fields_total", armed_total, 84)
